@@ -27,8 +27,10 @@ id,res=sys.argv[1:3]
 p=f'/verif/seeded/{id}/meta.json'; m=json.load(open(p))
 old=m.get('check_results','')
 # keep results of checks not re-run
-keep=[x for x in old.split(' C') if x and not any(('C'+x if not x.startswith('C') else x).startswith(c.split(':')[0]) for c in res.split())]
-m['check_results']=res.strip()
+rerun={c.split(':')[0] for c in res.split() if c[:1]=='C' and ':' in c}
+import re
+kept=[x for x in re.findall(r'C\d\d:exit=\d+:violations=\d+:(?:(?! C\d\d:exit=).)*', old) if x.split(':')[0] not in rerun]
+m['check_results']=' '.join([res.strip()]+[k.strip() for k in kept]).strip()
 m.setdefault('history',[]).append(old)
 json.dump(m,open(p,'w'),indent=1)
 PY
